@@ -1011,6 +1011,23 @@ def affixes(run, m, F, E, L):
                 cm = [x for x in s2.events if x[0] == 'cmp']
                 off = ZERO if which == 'starts_with' else s - nlen
 
+                def wrong_cmp(st3):
+                    """The one comparison on the path is provably about something else: another place, another text, or a length for
+                    which a model with length != |x| exists.  Anything in between is not decided."""
+                    if len(cm) != 1:
+                        return False
+                    a, b, cn = cm[0][2], cm[0][3], cm[0][4]
+                    if not (isinstance(a, PtrV) and a.obj == sto.obj and isinstance(b, PtrV) and b.obj == nptr[0]) or cn is None:
+                        return True
+                    # (the length may reach the primitive clamped by the member or by a helper: its equality with |x| on this path is
+                    # not held against the code here; a wrong place or a wrong text is)
+                    for d9 in (a.off - sto.off - off, b.off - nptr[1]):
+                        if st3.is_eq0(d9) is True:
+                            continue
+                        if st3.is_eq0(d9) is False or st3.find_model([d9], lambda vv: vv[0] != 0) is not None:
+                            return True
+                    return False
+
                 def good_cmp(st3):
                     for x in cm:
                         a, b, cn = x[2], x[3], x[4]
@@ -1038,8 +1055,11 @@ def affixes(run, m, F, E, L):
                             continue            # empty text: trivially true
                         if fits is not True:
                             probs.append('returns true although the text may be longer than the string')
+                        elif not good_cmp(s3) and len(cm) == 1 and not wrong_cmp(s3):
+                            und.append('returns true after a comparison whose range is not decided to be exactly the |x| units')
                         elif not (good_cmp(s3) and s3.flags.get('cmpres') == 'eq' and len(cm) == 1):
-                            probs.append('returns true without comparing exactly |x| units at offset %s' % ('0' if which == 'starts_with' else 'size - |x|'))
+                            (probs if len(cm) == 1 else und).append('returns true without comparing exactly |x| units at offset %s%s' % (
+                                '0' if which == 'starts_with' else 'size - |x|', '' if len(cm) == 1 else ' through one call of the comparison primitive (%d calls): not analysed' % len(cm)))
                     else:
                         nfalse += 1
                         if fits is False:
@@ -1048,6 +1068,10 @@ def affixes(run, m, F, E, L):
                             und.append('false path does not decide |x| <= size')
                         elif s3.is_eq0(nlen) is True:
                             probs.append('returns false for empty text')
+                        elif not (good_cmp(s3) and s3.flags.get('cmpres') == 'ne' and len(cm) == 1) and len(cm) != 1:
+                            und.append('returns false with |x| <= size after %d calls of the comparison primitive: not analysed' % len(cm))
+                        elif not good_cmp(s3) and len(cm) == 1 and not wrong_cmp(s3):
+                            und.append('returns false with |x| <= size after a comparison whose range is not decided to be exactly the |x| units')
                         elif not (good_cmp(s3) and s3.flags.get('cmpres') == 'ne' and len(cm) == 1):
                             probs.append('returns false although |x| <= size, without a failed comparison of exactly |x| units at offset %s' %
                                          ('0' if which == 'starts_with' else 'size - |x|'))
